@@ -163,7 +163,9 @@ from positional arguments) -/
 def g1 (rec : P) (m : Mode) (o : Opts) (decl : List FieldDecl) (ex : List String) (kv : String × Val) : Option Err :=
   match decl.find? (fun f => f.name == kv.1) with
   | none => addRep rec m o kv
-  | some f => if ex.contains f.name then none else repField rec m o f kv.2
+  | some f =>
+    if f.posOnly then addRep rec m o kv
+    else if ex.contains f.name then none else repField rec m o f kv.2
 
 theorem dfStep1_err? (rec : P) (m : Mode) (o : Opts) (decl : List FieldDecl) (ex : List String)
     (acc : Data × Data) (kv : String × Val) :
@@ -173,13 +175,16 @@ theorem dfStep1_err? (rec : P) (m : Mode) (o : Opts) (decl : List FieldDecl) (ex
   | none => exact additionStep_err? rec m o acc kv
   | some f =>
     simp only
-    by_cases hx : ex.contains f.name = true
-    · simp only [hx, if_true]; rfl
-    · simp only [hx, Bool.false_eq_true, if_false]
-      have := store_err? f.name acc.1 (fieldValue rec m o f kv.2)
-      unfold repField
-      rw [← this]
-      cases store f.name acc.1 (fieldValue rec m o f kv.2) <;> rfl
+    by_cases hp : f.posOnly = true
+    · simp only [hp, if_true]; exact additionStep_err? rec m o acc kv
+    · simp only [hp, Bool.false_eq_true, if_false]
+      by_cases hx : ex.contains f.name = true
+      · simp only [hx, if_true]; rfl
+      · simp only [hx, Bool.false_eq_true, if_false]
+        have := store_err? f.name acc.1 (fieldValue rec m o f kv.2)
+        unfold repField
+        rw [← this]
+        cases store f.name acc.1 (fieldValue rec m o f kv.2) <;> rfl
 
 theorem g1_item {rec : P} {m : Mode} {o : Opts} {decl : List FieldDecl} {ex : List String} {kv : String × Val}
     {e : Err} (h : g1 rec m o decl ex kv = some e) : e.item = some kv.1 := by
@@ -191,8 +196,10 @@ theorem g1_item {rec : P} {m : Mode} {o : Opts} {decl : List FieldDecl} {ex : Li
     simp only [beq_iff_eq] at this
     rw [← this]
     split at h
-    · simp at h
-    · exact repField_item h
+    · rw [this]; exact addRep_item h
+    · split at h
+      · simp at h
+      · exact repField_item h
 
 theorem g1_declOf (rec : P) (m : Mode) (o : Opts) (decl : List FieldDecl) (ex : List String) (k : String) (v : Val) :
     g1 rec m o (declOf decl k) ex (k, v) = g1 rec m o decl ex (k, v) := by
